@@ -790,41 +790,42 @@ class C13(Prop):
 
     def malformed(self, rng, cfg, mask):
         n = cfg.nch
-        c = rng.random()
-        if c < 0.06:
+        kinds = ["in-channels-with-mask", "in-and-mask-channels", "in-channels", "in-channels", "out-channels", "out-channels",
+                 "out-channels", "in-short", "in-short", "in-short", "in-empty", "in-empty", "out-short", "out-short", "out-short",
+                 "out-empty", "out-empty", "mask-length", "mask-length", "mask-length", "wrapper-malformed", "wrapper-malformed"]
+        if n >= 2:
+            kinds += ["empty-masked", "empty-masked"]
+        kd = rng.choice(kinds)
+        if kd == "in-channels-with-mask":
             # an explicit mask of the RIGHT length and the wrong number of input channels
             k = rng.choice([max(0, n - 1), n + 1, n + 3])
-            return f"proc {'1' * n} n m r1 ic={k}", "in-channels-with-mask"
-        if c < 0.12:
+            return f"proc {'1' * n} n m r1 ic={k}", kd
+        if kd == "in-and-mask-channels":
             # mask and input both have the same WRONG number of channels: the mask is what is reported
             k = rng.choice([n + 1, n + 2] + ([n - 1] if n > 1 else []))
-            return f"proc {'1' * k} n m r1 ic={k}", "in-and-mask-channels"
-        if c < 0.18:
-            return f"proc {mask} n m r1 ic={rng.choice([0, max(0, n - 1), n + 1, n + 3])}", "in-channels"
-        if c < 0.26 and n >= 2:
-            # an explicit mask with inactive channels BELOW the offending one: the error names the real channel index
+            return f"proc {'1' * k} n m r1 ic={k}", kd
+        if kd == "in-channels":
+            return f"proc {mask} n m r1 ic={rng.choice([0, max(0, n - 1), n + 1, n + 3])}", kd
+        if kd == "empty-masked":
+            # an explicit mask with an inactive channel directly BELOW the offending one: the error names the real channel index
             k = rng.randint(1, n - 1)
             m = "".join(rng.choice("01") for _ in range(k - 1)) + "0" + "1" + "".join(rng.choice("01") for _ in range(n - k - 1))
-            m = m[:k - 1] + "0" + m[k:] if k >= 1 else m
             which = rng.choice(["si", "so"])
             return f"proc {m} n m r1 {which}={k}:0 em", ("in-empty-masked:%d" % k if which == "si" else "out-empty-masked:%d" % k)
-        if c < 0.24:
-            return f"proc {mask} n m r1 oc={rng.choice([0, max(0, n - 1), n + 1, n + 2])}", "out-channels"
-        if c < 0.40:
-            ch = rng.randrange(n)
-            return f"proc - n-{rng.choice([1, 1, 2, 5, 100000])} m r1", "in-short"
-        if c < 0.50:
-            ch = rng.randrange(n)
-            return f"proc - n m r1 si={ch}:0", "in-empty"
-        if c < 0.66:
-            return f"proc - n n-{rng.choice([1, 1, 2, 7, 100000])} r1", "out-short"
-        if c < 0.74:
-            ch = rng.randrange(n)
-            return f"proc - n m r1 so={ch}:0", "out-empty"
-        if c < 0.90:
+        if kd == "out-channels":
+            return f"proc {mask} n m r1 oc={rng.choice([0, max(0, n - 1), n + 1, n + 2])}", kd
+        if kd == "in-short":
+            return f"proc - n-{rng.choice([1, 1, 2, 5, 100000])} m r1", kd
+        if kd == "in-empty":
+            return f"proc - n m r1 si={rng.randrange(n)}:0", kd
+        if kd == "out-short":
+            return f"proc - n n-{rng.choice([1, 1, 2, 7, 100000])} r1", kd
+        if kd == "out-empty":
+            return f"proc - n m r1 so={rng.randrange(n)}:0", kd
+        if kd == "mask-length":
             m = rng.choice(["e", "1" * (n + 1), "1" * max(0, n - 1) if n > 1 else "e", "0" * (n + 2), "10" * n])
             op = rng.choice(["proc {m} n m r1", "part {m} none m r1", "procw {m} n r1", "partw {m} none r1"])
-            return op.format(m=m), "mask-length"
+            return op.format(m=m), kd
         return rng.choice([f"procw - n-1 r1", f"part - n n-1 r1", f"procw - n r1 ic={n + 1}"]), "wrapper-malformed"
 
     def scenarios(self, rng):
@@ -2909,11 +2910,11 @@ class C14(Prop):
                               {"cfg": cfg.line, "kind": kind, "ty": cfg.ty, "feats": ["impulse", "after-reset"], "n": n,
                                "ratio": cfg.ratio}))
         # FFT types fed chunks smaller than one block, with rejected calls in the middle of the clip
-        for i in range(4):
-            kind = rng.choice(["fftin", "fftin", "fftout"])
+        for i in range(6):
+            kind = ["fftin", "fftin", "fftout", "fftin", "fftin", "fftout"][i]
             ri, ro = rng.choice([(44100, 48000), (48000, 44100), (147, 160)])
             ty = rng.choice(["f64", "f32"])
-            chunk = rng.choice([32, 64, 100])
+            chunk = rng.choice([24, 32, 48])      # well below one block (147 / 160 frames)
             line = f"{ty} {kind} {ri} {ro} {chunk} 1 1"
             fi, fo = fft_sizes(ri, ro, chunk, kind == "fftout")
             n = rng.randint(400, 2500)
@@ -2956,6 +2957,16 @@ class C14(Prop):
             hs.append(History([f"0 new {line}"] + [f"0 proc - n m k{n} dump"] * ncalls,
                               {"cfg": line, "kind": kind, "ty": ty, "feats": ["impulse", "sub-chunk-remainder"], "n": n,
                                "ratio": ro / ri}))
+        # equal rates (ratio exactly 1) on every synchronous type: the same filter, the same half-block delay
+        for kind in gen.FFT:
+            ri = ro = rng.choice([1, 48000, 44100])
+            chunk = rng.choice([64, 100, 256, 512])
+            ty = rng.choice(["f64", "f32"])
+            line = f"{ty} fftio {ri} {ro} {chunk} 1" if kind == "fftio" else f"{ty} {kind} {ri} {ro} {chunk} {rng.choice([1, 2])} 1"
+            n = rng.randint(50, 1500)
+            ncalls = int((n + 3 * chunk + 100) / chunk) + 3
+            hs.append(History([f"0 new {line}"] + [f"0 proc - n m k{n} dump"] * ncalls,
+                              {"cfg": line, "kind": kind, "ty": ty, "feats": ["impulse", "equal-rates"], "n": n, "ratio": 1.0}))
         # large FFT blocks (small-gcd rate pairs, big chunks): the delay must stay half a block whatever the block length
         for (ri, ro, chunk) in [(44100, 44110, 64), (48000, 44090, 64), (44100, 48000, 8192), (1000, 1001, 5000)][:2 if self.tier == "quick" else 4]:
             kind = rng.choice(gen.FFT)
